@@ -21,4 +21,15 @@ for d in /tmp/zw_r*x; do
     fi
   done
 done
+for d in /tmp/zq_t*y; do
+  [ -d "$d" ] || continue
+  id=C$(basename $d | sed 's/zq_t\(..\)y/\1/')
+  for k in 1 2 3; do
+    if [ -s $d/round3_$k.diff ]; then
+      mkdir -p /verif/seeded/$id
+      cp $d/round3_$k.diff /verif/seeded/$id/round3_$k.diff
+      [ -f $d/round3_demo_$k.py ] && cp $d/round3_demo_$k.py /verif/seeded/$id/round3_demo_$k.py
+    fi
+  done
+done
 ls /verif/seeded
